@@ -6,6 +6,7 @@ Rpki/Proofs/{PrefixLemmas,PrefixOrder,AsnSetLemmas}.lean.
 import Rpki.Proofs.PrefixOrder
 import Rpki.Proofs.AsnSetLemmas
 import Rpki.Proofs.PfxTextLemmas
+import Rpki.Proofs.PfxTextSound
 namespace Rpki.C13
 open Rpki.Prefix Rpki.AsnSet Rpki.Consts
 
@@ -368,6 +369,14 @@ theorem parsed_prefix_is_constructed (relaxed : Bool) (s : ResText.Bytes) (p : P
     ∃ v4 a len, len < 256 ∧ PfxText.pfxNew relaxed (v4, a) len = .ok p := by
   obtain ⟨⟨v4, a⟩, len, hl, hp⟩ := PfxText.parsePfx_ok relaxed s p h
   exact ⟨v4, a, len, hl, hp⟩
+
+/-- **Parsed prefixes are well-formed, and their canonical text is stable.** Every value the strict or
+the relaxed text reader returns has its address inside its family (the address readers return less than
+2^32 resp. 2^128: `parseV4_lt`, `parseV6_lt`), clear host bits and the family/length octet of the
+constructors; writing it and reading the text again — with either reader — gives the same value. -/
+theorem parsed_prefix_wf (r r' : Bool) (s : ResText.Bytes) (p : Pfx) (h : PfxText.parsePfx r s = .ok p) :
+    PfxText.PfxWF p ∧ PfxText.parsePfx r' (PfxText.fmtPfx p) = .ok p :=
+  ⟨PfxText.parsePfx_wf r s p h, PfxText.parse_fmt_parse r r' s p h⟩
 
 /-- Two constructed prefixes with the same text are the same prefix. -/
 theorem prefix_text_injective (p q : Pfx) (hp : PfxText.PfxWF p) (hq : PfxText.PfxWF q)
